@@ -1,6 +1,6 @@
 (* C09 -- least-squares block samplers inside the Gibbs state machine: the stacked system a LinearRTO / UGLA block uses at
    every transition of every run is built from the CURRENT values of the other blocks. *)
-From CV Require Import Base.Tac Base.Cmp Base.QcLin Model.C09_Rto Model.C09_Gibbs Model.C09_Gibbs2 Proofs.C09_Wiring Proofs.C09_Run.
+From CV Require Import Base.Tac Base.Cmp Base.QcLin Model.C09_Rto Model.C09_Nnls Model.C09_Gibbs Model.C09_Gibbs2 Proofs.C09_Wiring Proofs.C09_Run.
 From Coq Require Import QArith Qcanon.
 Local Open Scope nat_scope.
 
